@@ -555,22 +555,9 @@ def thread_none_tests_repo(repo) -> int:
 
 
 # --------------------------------------------------------------------------- C17
-def strip_inline_suffixes_function(fn) -> int:
-    """C17: the inliner renames a helper local ``x`` to ``x__N`` when the caller already has an ``x``.  Where the
-    caller's ``x`` is dead by then - every occurrence of ``x`` sits in a top-level statement BEFORE the first
-    one mentioning ``x__N`` (a trailing copy ``x = x__N`` excepted, and dropped) - the suffix is removed again,
-    so that two helpers spliced one after the other read like the code they were extracted from."""
-    import re
-
-    pat = re.compile(r"^(.+)__(\d+)$")
-    body = fn.body
-    params = {a.arg for a in fn.args.posonlyargs + fn.args.args + fn.args.kwonlyargs}
-    if fn.args.vararg:
-        params.add(fn.args.vararg.arg)
-    if fn.args.kwarg:
-        params.add(fn.args.kwarg.arg)
+def _occurrences(stmts) -> dict[str, list[int]]:
     occ: dict[str, list[int]] = {}
-    for k, st in enumerate(body):
+    for k, st in enumerate(stmts):
         for n in ast.walk(st):
             if isinstance(n, ast.Name):
                 occ.setdefault(n.id, []).append(k)
@@ -578,47 +565,93 @@ def strip_inline_suffixes_function(fn) -> int:
                 occ.setdefault(n.name, []).append(k)
             elif isinstance(n, ast.arg):
                 occ.setdefault(n.arg, []).append(k)
+    return occ
+
+
+def strip_inline_suffixes_function(fn) -> int:
+    """C17: the inliner renames a helper local ``x`` to ``x__N`` when the caller already has an ``x``.  Where the
+    caller's ``x`` is dead by then - inside one block, every occurrence of ``x`` sits in a statement BEFORE the
+    first one mentioning ``x__N`` (a trailing copy ``x = x__N`` excepted, and dropped), and neither name occurs
+    outside that block - the suffix is removed again, so that helpers spliced one after the other read like the
+    code they were extracted from."""
+    import re
+
+    pat = re.compile(r"^(.+)__(\d+)$")
+    params = {a.arg for a in fn.args.posonlyargs + fn.args.args + fn.args.kwonlyargs}
+    if fn.args.vararg:
+        params.add(fn.args.vararg.arg)
+    if fn.args.kwarg:
+        params.add(fn.args.kwarg.arg)
+    if any(isinstance(n, (ast.Global, ast.Nonlocal)) for n in ast.walk(fn)):
+        return 0
+    total = {k: len(v) for k, v in _occurrences(fn.body).items()}
     done = 0
-    for nm in sorted(occ, key=lambda s_: (min(occ[s_]), s_)):
-        m = pat.match(nm)
-        if not m:
-            continue
-        base = m.group(1)
-        if base in params or pat.match(base):
-            continue
-        first = min(occ[nm])
-        base_occ = list(occ.get(base, []))
-        copy_idx = None
-        # trailing copy `base = nm`
-        for k in sorted(set(base_occ)):
-            st = body[k]
-            if k > first and isinstance(st, (ast.Assign, ast.AnnAssign)) and isinstance(getattr(st, "value", None), ast.Name) and st.value.id == nm:
-                tg = st.targets if isinstance(st, ast.Assign) else [st.target]
-                if len(tg) == 1 and isinstance(tg[0], ast.Name) and tg[0].id == base and max(occ[nm]) == k:
-                    copy_idx = k
-        rest = [k for k in base_occ if k != copy_idx]
-        if copy_idx is not None and base_occ.count(copy_idx) != 1:
-            continue
-        if any(k >= first and not (copy_idx is not None and k > copy_idx) for k in rest):
-            continue
-        # nested functions / lambdas that mention either name: leave alone
-        if any(isinstance(n, (ast.FunctionDef, ast.AsyncFunctionDef, ast.Lambda)) and any(isinstance(x, ast.Name) and x.id in (nm, base) for x in ast.walk(n)) for st in body for n in ast.walk(st)):
-            continue
+
+    def split_tuples(body):
+        # a, b = (x, y)  (all plain names, no overlap)  ->  a = x ; b = y
+        out = []
         for st in body:
-            for n in ast.walk(st):
-                if isinstance(n, ast.Name) and n.id == nm:
-                    n.id = base
-                elif isinstance(n, ast.ExceptHandler) and n.name == nm:
-                    n.name = base
-        if copy_idx is not None:
-            body[copy_idx]._drop = True  # type: ignore[attr-defined]
-        occ.setdefault(base, []).extend(k for k in occ[nm] if k != copy_idx)
-        if copy_idx is not None:
-            occ[base] = [k for k in occ[base] if k != copy_idx]
-        occ[nm] = []
-        done += 1
+            if isinstance(st, ast.Assign) and len(st.targets) == 1 and isinstance(st.targets[0], ast.Tuple) and isinstance(st.value, ast.Tuple) and len(st.targets[0].elts) == len(st.value.elts) and all(isinstance(t, ast.Name) for t in st.targets[0].elts) and all(isinstance(v, ast.Name) for v in st.value.elts) and not ({t.id for t in st.targets[0].elts} & {v.id for v in st.value.elts}) and any(pat.match(v.id) for v in st.value.elts):
+                for t, v in zip(st.targets[0].elts, st.value.elts):
+                    out.append(ast.copy_location(ast.Assign(targets=[t], value=v), st))
+            else:
+                out.append(st)
+        return out
+
+    def block(body) -> list:
+        nonlocal done
+        for st in body:
+            if isinstance(st, (ast.FunctionDef, ast.AsyncFunctionDef, ast.ClassDef)):
+                continue
+            for fld, lst in list(_blocks(st)):
+                lst[:] = block(lst)
+        body = split_tuples(body)
+        occ = _occurrences(body)
+        for nm in sorted(occ, key=lambda s_: (min(occ[s_]) if occ[s_] else 0, s_)):
+            m = pat.match(nm)
+            if not m or not occ[nm]:
+                continue
+            base = m.group(1)
+            if base in params or pat.match(base):
+                continue
+            if len(occ[nm]) != total.get(nm, 0) or len(occ.get(base, [])) != total.get(base, 0):
+                continue  # one of the names is also used outside this block
+            first = min(occ[nm])
+            base_occ = list(occ.get(base, []))
+            copy_idx = None
+            for k in sorted(set(base_occ)):
+                st = body[k]
+                if k > first and isinstance(st, (ast.Assign, ast.AnnAssign)) and isinstance(getattr(st, "value", None), ast.Name) and st.value.id == nm:
+                    tg = st.targets if isinstance(st, ast.Assign) else [st.target]
+                    if len(tg) == 1 and isinstance(tg[0], ast.Name) and tg[0].id == base and max(occ[nm]) == k:
+                        copy_idx = k
+            rest = [k for k in base_occ if k != copy_idx]
+            if copy_idx is not None and base_occ.count(copy_idx) != 1:
+                continue
+            if any(k >= first and not (copy_idx is not None and k > copy_idx) for k in rest):
+                continue
+            if any(isinstance(n, (ast.FunctionDef, ast.AsyncFunctionDef, ast.Lambda)) and any(isinstance(x, ast.Name) and x.id in (nm, base) for x in ast.walk(n)) for st in body for n in ast.walk(st)):
+                continue
+            for st in body:
+                for n in ast.walk(st):
+                    if isinstance(n, ast.Name) and n.id == nm:
+                        n.id = base
+                    elif isinstance(n, ast.ExceptHandler) and n.name == nm:
+                        n.name = base
+            moved = [k for k in occ[nm] if k != copy_idx]
+            if copy_idx is not None:
+                body[copy_idx]._drop = True  # type: ignore[attr-defined]
+                occ[base] = [k for k in occ.get(base, []) if k != copy_idx]
+                total[base] = total.get(base, 0) - 1
+            occ.setdefault(base, []).extend(moved)
+            total[base] = total.get(base, 0) + len(moved)
+            total[nm] = 0
+            occ[nm] = []
+            done += 1
+        return [st for st in body if not getattr(st, "_drop", False)] or [ast.copy_location(ast.Pass(), body[0])]
+
+    fn.body = block(fn.body)
     if done:
-        fn.body = [st for st in body if not getattr(st, "_drop", False)] or [ast.Pass()]
         _refresh(fn)
     return done
 
